@@ -387,3 +387,42 @@ func VH_EncodeWatch() {
 		vDecodeAndCheck(w, "exit", "always", exps, true, nil)
 	}
 }
+
+func init() { vEntries["VH_EncodeCompare"] = VH_EncodeCompare }
+
+// VH_EncodeCompare: -C inter-field comparisons carry AUDIT_FIELD_COMPARE and the UAPI pair code.
+func VH_EncodeCompare() {
+	type pr struct{ a, b string }
+	var pairs []pr
+	for k := range vUAPICompare {
+		pairs = append(pairs, pr{k[0], k[1]})
+	}
+	for i := 1; i < len(pairs); i++ {
+		for j := i; j > 0 && (pairs[j].a+","+pairs[j].b) < (pairs[j-1].a+","+pairs[j-1].b); j-- {
+			pairs[j], pairs[j-1] = pairs[j-1], pairs[j]
+		}
+	}
+	vAssert(len(pairs) == 25, "C06/uapi-compare-table-size")
+	for _, p := range pairs {
+		code := vUAPICompare[[2]string{p.a, p.b}]
+		for _, ord := range [][2]string{{p.a, p.b}, {p.b, p.a}} {
+			for _, op := range []string{"=", "!="} {
+				r := &SyscallRule{Type: AppendSyscallRuleType, List: "exit", Action: "always",
+					Filters: []FilterSpec{{Type: InterFieldFilterType, LHS: ord[0], Comparator: op, RHS: ord[1]}}}
+				w, err := Build(r)
+				vAssert(err == nil, "C06/comparison-rejected")
+				if err != nil {
+					continue
+				}
+				vDecodeAndCheck(w, "exit", "always", []vExpect{{field: vUAPIFields["field_compare"], op: vUAPIOps[op], value: code}}, true, nil)
+			}
+		}
+	}
+	// what the kernel has no code for must be rejected, not encoded as something else
+	for _, bad := range [][3]string{{"uid", "=", "gid"}, {"pid", "=", "ppid"}, {"uid", "<", "euid"}, {"uid", "=", "uid"}, {"obj_uid", "=", "obj_gid"}} {
+		r := &SyscallRule{Type: AppendSyscallRuleType, List: "exit", Action: "always",
+			Filters: []FilterSpec{{Type: InterFieldFilterType, LHS: bad[0], Comparator: bad[1], RHS: bad[2]}}}
+		_, err := Build(r)
+		vAssert(err != nil, "C06/comparison-without-uapi-code-accepted")
+	}
+}
